@@ -48,6 +48,29 @@ class Tok:
         return hash(self.name)
 
 
+def _mark_breaks(body: list[ast.stmt], marker: str) -> list[ast.stmt]:
+    """Copy of a loop body in which every `break` that belongs to THIS loop first sets env[marker] = True."""
+    import copy
+
+    class T(ast.NodeTransformer):
+        def visit_For(self, n):  # inner loops own their breaks
+            return n
+
+        visit_While = visit_AsyncFor = visit_FunctionDef = visit_Lambda = visit_For
+
+        def visit_Break(self, n):
+            set_ = ast.Assign(targets=[ast.Name(id=marker, ctx=ast.Store())], value=ast.Constant(value=True))
+            return [ast.copy_location(set_, n), n]
+
+    out = []
+    for st in copy.deepcopy(body):
+        r = T().visit(st)
+        out.extend(r if isinstance(r, list) else [r])
+    for st in out:
+        ast.fix_missing_locations(st)
+    return out
+
+
 BUILTIN_TYPES = {"bool": bool, "int": int, "float": float, "str": str, "tuple": tuple, "list": list}
 
 
@@ -249,7 +272,10 @@ class PyEval(MiniEval):
                 if isinstance(e.slice, ast.Slice):
                     lo = self.ev(e.slice.lower, env) if e.slice.lower else None
                     hi = self.ev(e.slice.upper, env) if e.slice.upper else None
-                    return v[lo:hi]
+                    st = self.ev(e.slice.step, env) if e.slice.step else None
+                    if not all(x is None or (isinstance(x, int) and not isinstance(x, bool)) for x in (lo, hi, st)) or st == 0:
+                        raise Unsupported(f"slice bounds {lo!r}:{hi!r}:{st!r}")
+                    return v[lo:hi:st]
                 i = self.ev(e.slice, env)
                 if isinstance(i, int):
                     try:
@@ -257,6 +283,46 @@ class PyEval(MiniEval):
                     except IndexError:
                         raise Raised("index out of range", "IndexError") from None
             raise Unsupported(f"subscript of {v!r}")
+        if isinstance(e, ast.Set):
+            out_s = set()
+            for x in e.elts:
+                if isinstance(x, ast.Starred):
+                    raise Unsupported("splat in set display")
+                out_s.add(self.ev(x, env))
+            return out_s
+        if isinstance(e, ast.Lambda):
+            a = e.args
+            if a.vararg or a.kwarg or a.kwonlyargs or a.defaults:
+                raise Unsupported("lambda with defaults / varargs")
+            params = [p.arg for p in a.posonlyargs + a.args]
+            closure = dict(env)
+
+            def _lam(*vals, _params=params, _body=e.body, _closure=closure):
+                if len(vals) != len(_params):
+                    raise Raised("lambda arity", "TypeError")
+                return self.ev(_body, {**_closure, **dict(zip(_params, vals))})
+            _lam.__gsa_lambda__ = True  # type: ignore[attr-defined]
+            return _lam
+        if isinstance(e, (ast.ListComp, ast.GeneratorExp, ast.DictComp, ast.SetComp)) and len(e.generators) > 1 and not any(g.is_async for g in e.generators):
+            rows: list[dict] = [dict(env)]
+            for g in e.generators:
+                nxt = []
+                for env1 in rows:
+                    it = self.ev(g.iter, env1)
+                    if isinstance(it, dict):
+                        it = list(it)
+                    if not isinstance(it, (list, tuple)):
+                        raise Unsupported(f"comprehension over {it!r}")
+                    for item in it:
+                        env2 = dict(env1)
+                        self.assign(g.target, item, env2)
+                        if all(self.truth(self.ev(c, env2)) for c in g.ifs):
+                            nxt.append(env2)
+                rows = nxt
+            if isinstance(e, ast.DictComp):
+                return {self.ev(e.key, r): self.ev(e.value, r) for r in rows}
+            vals = [self.ev(e.elt, r) for r in rows]
+            return set(vals) if isinstance(e, ast.SetComp) else vals
         if isinstance(e, (ast.ListComp, ast.GeneratorExp, ast.DictComp, ast.SetComp)) and len(e.generators) == 1:
             g = e.generators[0]
             it = self.ev(g.iter, env)
@@ -343,6 +409,91 @@ class PyEval(MiniEval):
                             return r
                         break
                 continue
+            if isinstance(st, ast.FunctionDef) and not st.decorator_list:
+                a = st.args
+                if a.vararg or a.kwarg or a.kwonlyargs or a.defaults:
+                    raise Unsupported("nested function with defaults / varargs")
+                params = [p.arg for p in a.posonlyargs + a.args]
+
+                def _fn(*vals, _params=params, _body=st.body, _env=env):
+                    if len(vals) != len(_params):
+                        raise Raised("arity", "TypeError")
+                    r = self.run(_body, {**_env, **dict(zip(_params, vals))})
+                    if r[0] == "raise":
+                        raise Raised(str(r[1]), str(r[1]))
+                    return r[1] if r[0] == "return" else None
+                _fn.__gsa_lambda__ = True  # type: ignore[attr-defined]
+                env[st.name] = _fn
+                continue
+            if isinstance(st, ast.Try):
+                raised: str | None = None
+                try:
+                    r = self.run(st.body, env)
+                    if r[0] == "raise":
+                        raised = str(r[1])
+                        r = ("fall", None)
+                except Raised as ex:
+                    raised = ex.cls or "Exception"
+                    r = ("fall", None)
+                handled = False
+                if raised is not None:
+                    for h in st.handlers:
+                        names = [] if h.type is None else [dotted(x).split(".")[-1] for x in (h.type.elts if isinstance(h.type, ast.Tuple) else [h.type])]
+                        if h.type is None or raised in names or "Exception" in names or "BaseException" in names:
+                            if h.name:
+                                env[h.name] = Tok(f"exc:{raised}", __class__=raised)
+                            r = self.run(h.body, env)
+                            handled = True
+                            break
+                    if not handled:
+                        r = ("raise", raised)
+                elif st.orelse:
+                    r = self.run(st.orelse, env)
+                if st.finalbody:
+                    rf = self.run(st.finalbody, env)
+                    if rf[0] != "fall":
+                        r = rf
+                if r[0] != "fall":
+                    return r
+                continue
+            if isinstance(st, ast.With):
+                suppressed: list[str] = []
+                for it in st.items:
+                    ce = it.context_expr
+                    if isinstance(ce, ast.Call) and dotted(ce.func).split(".")[-1] == "suppress":
+                        suppressed += [dotted(x).split(".")[-1] for x in ce.args]
+                    else:
+                        v = self.ev(ce, env)
+                        if it.optional_vars is not None:
+                            self.assign(it.optional_vars, v, env)
+                try:
+                    r = self.run(st.body, env)
+                except Raised as ex:
+                    if (ex.cls or "Exception") in suppressed or "Exception" in suppressed or "BaseException" in suppressed:
+                        r = ("fall", None)
+                    else:
+                        raise
+                if r[0] == "raise" and (str(r[1]) in suppressed or "Exception" in suppressed or "BaseException" in suppressed):
+                    r = ("fall", None)
+                if r[0] != "fall":
+                    return r
+                continue
+            if isinstance(st, (ast.For, ast.While)) and st.orelse:
+                # loop with else: run the loop without its else clause, remember whether it was left by `break`
+                marker = f"__broke_{id(st)}"
+                env[marker] = False
+                body2 = _mark_breaks(st.body, marker)
+                loop2 = ast.For(target=st.target, iter=st.iter, body=body2, orelse=[]) if isinstance(st, ast.For) else ast.While(test=st.test, body=body2, orelse=[])
+                ast.copy_location(loop2, st)
+                ast.fix_missing_locations(loop2)
+                r = super().run([loop2], env)
+                if r[0] != "fall":
+                    return r
+                if not env.pop(marker):
+                    r = self.run(st.orelse, env)
+                    if r[0] != "fall":
+                        return r
+                continue
             if isinstance(st, ast.Expr) and isinstance(st.value, ast.Yield):
                 # generator functions: the yielded values are collected in env["__yields__"], in order
                 env.setdefault("__yields__", []).append(self.ev(st.value.value, env) if st.value.value is not None else None)
@@ -428,6 +579,11 @@ class PyEval(MiniEval):
     # ---- calls
     def call(self, node: ast.Call, env: dict) -> Any:
         fn = ast.unparse(node.func)
+        if fn in env and getattr(env[fn], "__gsa_lambda__", False):
+            # a lambda / local function of the interpreted code (not a hook): ordinary call with evaluated arguments
+            if node.keywords or any(isinstance(a, ast.Starred) for a in node.args):
+                raise Unsupported("call of a local function with keywords / splats")
+            return env[fn](*[self.ev(a, env) for a in node.args])
         if fn in env and callable(env[fn]):
             return env[fn](node, self, env)
         args = None
@@ -494,6 +650,28 @@ class PyEval(MiniEval):
                 return None
             if isinstance(recv, dict) and m in ("keys", "values", "items") and not node.args:
                 return {"keys": set(recv), "values": list(recv.values()), "items": list(recv.items())}[m]
+            if isinstance(recv, dict) and m == "setdefault" and 1 <= len(node.args) <= 2 and not node.keywords:
+                return recv.setdefault(*A())
+            if isinstance(recv, (list, tuple)) and m in ("index", "count") and len(node.args) == 1 and not node.keywords:
+                try:
+                    return getattr(recv, m)(A()[0])
+                except ValueError:
+                    raise Raised("value not in list", "ValueError") from None
+            if isinstance(recv, list) and m in ("insert", "remove", "clear", "reverse", "copy") and not node.keywords:
+                try:
+                    return getattr(recv, m)(*A())
+                except ValueError:
+                    raise Raised("list.remove(x): x not in list", "ValueError") from None
+            if isinstance(recv, str) and m in ("join", "split", "strip", "lstrip", "rstrip", "capitalize", "title", "replace", "format", "removeprefix", "removesuffix",
+                                               "isdigit", "isidentifier", "find", "count") and not node.keywords \
+                    and all(isinstance(x, (str, int, list, tuple)) for x in A()):
+                if m == "join" and not all(isinstance(x, str) for x in A()[0]):
+                    raise Unsupported("str.join of non-strings")
+                return getattr(recv, m)(*A())
+            if isinstance(recv, (dict, list, tuple, set, frozenset, str, int, float)):
+                # a method of a concrete Python value that is not modelled: never guess (a silently ignored mutation
+                # would make every later conclusion wrong)
+                raise Unsupported(f"method {type(recv).__name__}.{m}")
             return Opaque(ast.unparse(node)[:50])
         if fn == "isinstance" and len(node.args) == 2:
             v, t = A()
@@ -520,7 +698,7 @@ class PyEval(MiniEval):
             return type(v)
         if fn == "len" and len(node.args) == 1:
             v = A()[0]
-            if isinstance(v, (list, tuple, str, dict)):
+            if isinstance(v, (list, tuple, str, dict, set, frozenset)):
                 return len(v)
             raise Unsupported(f"len of {v!r}")
         if fn in ("any", "all") and len(node.args) == 1:
@@ -536,8 +714,16 @@ class PyEval(MiniEval):
                     raise Raised("zip() argument lengths differ", "ValueError")
                 return [tuple(t) for t in zip(*seqs)]
             raise Unsupported("zip of non-sequences")
-        if fn == "enumerate" and len(node.args) == 1 and isinstance(A()[0], (list, tuple)):
-            return [(i, x) for i, x in enumerate(A()[0])]
+        if fn == "enumerate" and 1 <= len(node.args) <= 2 and isinstance(A()[0], (list, tuple)):
+            start = A()[1] if len(node.args) == 2 else 0
+            for k in node.keywords:
+                if k.arg == "start":
+                    start = self.ev(k.value, env)
+                else:
+                    raise Unsupported(f"enumerate keyword {k.arg}")
+            if not isinstance(start, int):
+                raise Unsupported("enumerate start")
+            return [(i, x) for i, x in enumerate(A()[0], start)]
         if fn in ("reduce", "functools.reduce") and 2 <= len(node.args) <= 3 and isinstance(A()[1], (list, tuple)):
             op = A()[0]
             opname = op.what if isinstance(op, Opaque) else None
@@ -564,7 +750,25 @@ class PyEval(MiniEval):
             if all(isinstance(x, (str, int, float)) and not isinstance(x, bool) for x in xs) and len({type(x) is str for x in xs}) <= 1 \
                     and (keyf is None or keyf in (str, int, float)) and set(kws) <= {"key", "reverse"} and isinstance(kws.get("reverse", False), bool):
                 return sorted(xs, key=keyf, reverse=kws.get("reverse", False))
+            if getattr(keyf, "__gsa_lambda__", False) and set(kws) <= {"key", "reverse"} and isinstance(kws.get("reverse", False), bool):
+                keys = [keyf(x) for x in xs]
+                ok_k = lambda k: isinstance(k, (str, int, float)) and not isinstance(k, bool)  # noqa: E731
+                if all(ok_k(k) or (isinstance(k, tuple) and all(ok_k(y) for y in k)) for k in keys) and len({repr(type(k)) for k in keys}) <= 1:
+                    order = sorted(range(len(xs)), key=lambda i: keys[i], reverse=kws.get("reverse", False))
+                    return [xs[i] for i in order]
             raise Unsupported(f"sorted of {xs!r}")
+        if fn in ("min", "max") and len(node.args) == 1 and isinstance(A()[0], (list, tuple, set, frozenset)) and A()[0]:
+            kws = {k.arg: self.ev(k.value, env) for k in node.keywords if k.arg}
+            keyf = kws.get("key")
+            xs = list(A()[0]) if not isinstance(A()[0], (set, frozenset)) else sorted(A()[0], key=repr)
+            if set(kws) <= {"key"} and getattr(keyf, "__gsa_lambda__", False):
+                keys = [keyf(x) for x in xs]
+                if all(isinstance(k, (int, float, str)) and not isinstance(k, bool) for k in keys) and len({type(k) is str for k in keys}) <= 1:
+                    pick = (min if fn == "min" else max)(range(len(xs)), key=lambda i: keys[i])
+                    return xs[pick]
+            if not kws and all(isinstance(x, (int, float)) and not isinstance(x, bool) for x in xs):
+                return (min if fn == "min" else max)(xs)
+            raise Unsupported(f"{fn} of {xs!r}")
         if fn == "reversed" and len(node.args) == 1 and isinstance(A()[0], (list, tuple)):
             return list(reversed(A()[0]))
         if fn in ("cast",) and len(node.args) == 2:
